@@ -71,7 +71,10 @@ def work(key):
         tkind, obj, npar = gate_table()[name]
         th = syms("th", npar)
         g = make_gate(name, th)
-        res.fn(g.matrix_factory, G.MatrixFactoryGate.matrix.fget, G.MatrixFactoryGate.dagger.fget)
+        try:  # evidence only: a renamed private helper must not break the check
+            res.fn(g.matrix_factory, G.MatrixFactoryGate.matrix.fget, G.MatrixFactoryGate.dagger.fget)
+        except AttributeError:
+            pass
         P = Prover(res)
         try:
             M = g.matrix
@@ -125,7 +128,10 @@ def work(key):
                 res.herr("vacuity twin U != I came back without a violation")
     elif kind == "group":
         a, b = sympy.Symbol("a"), sympy.Symbol("b")
-        res.fn(gate_table()[name][1]().matrix_factory)
+        try:  # evidence only: a renamed private helper must not break the check
+            res.fn(gate_table()[name][1]().matrix_factory)
+        except AttributeError:
+            pass
         P = Prover(res)
         Ma, Mb, Mab = make_gate(name, [a]).matrix, make_gate(name, [b]).matrix, make_gate(name, [a + b]).matrix
         n = Ma.shape[0]
